@@ -701,6 +701,13 @@ impl<TokenIter: Iterator<Item = Result<Token>>> Parser<TokenIter> {
         Ok(DatumBody::Pair(head).locate(list_location))
     }
 
+    /// verification hook: the next datum of the token stream (advance + current_datum)
+    #[cfg(ruschm_verif)]
+    pub fn verif_next_datum(&mut self) -> Result<Option<Datum>> {
+        self.advance(1)?;
+        self.current_datum()
+    }
+
     pub fn parse_root(&mut self) -> Result<Option<Statement>> {
         self.parse(self.syntax_env.clone())
     }
